@@ -9,6 +9,7 @@ import (
 	"go/token"
 	"go/types"
 	"math"
+	"sort"
 	"strings"
 	"testing"
 
@@ -23,7 +24,7 @@ import (
 type Case struct {
 	Val  *recipe.Value `json:"val"`
 	Func bool          `json:"func"`          // LitFunc instead of Lit
-	Ctx  string        `json:"ctx,omitempty"` // "" alone | assign | call
+	Ctx  string        `json:"ctx,omitempty"` // "" alone | assign | call | a key of contexts
 }
 
 var basic = map[string]types.BasicKind{
@@ -78,6 +79,23 @@ func check(c Case) error {
 		}
 		if whole != "f ("+text+","+text+")" {
 			return fmt.Errorf("embedded in a call the literal renders %q, alone %q", whole, text)
+		}
+	}
+	if build, ok := contexts[c.Ctx]; ok {
+		// the literal chained into a larger statement (before a block, a comment, another operator, as a
+		// case expression, ...): the statement must render exactly as it does with an identifier in the
+		// literal's place, the identifier replaced by the literal's own text
+		mk := func() *recipe.Node { return recipe.Id("ZZLIT") }
+		marked, err := litx.RenderStmt(build(mk), nil)
+		if err != nil {
+			return err
+		}
+		whole, err := litx.RenderStmt(build(func() *recipe.Node { return lit.Clone() }), nil)
+		if err != nil {
+			return fmt.Errorf("context %s: %v", c.Ctx, err)
+		}
+		if want := strings.ReplaceAll(marked, "ZZLIT", text); whole != want {
+			return fmt.Errorf("context %s: the statement renders %q; with an identifier in the literal's place, replaced by the literal's text %q, it is %q", c.Ctx, whole, text, want)
 		}
 	}
 	tv, err := litx.Eval(text)
@@ -137,6 +155,61 @@ func check(c Case) error {
 		}
 	}
 	return nil
+}
+
+// contexts build a statement around the literal (x() yields the literal, a fresh node each time).
+var contexts = map[string]func(x func() *recipe.Node) *recipe.Node{
+	"if_block": func(x func() *recipe.Node) *recipe.Node {
+		return recipe.S().C("If").C("Id", "v").C("Op", "==").Then(x()).C("Block")
+	},
+	"switch_block": func(x func() *recipe.Node) *recipe.Node { return recipe.S().C("Switch").Then(x()).C("Block") },
+	"for_block": func(x func() *recipe.Node) *recipe.Node {
+		return recipe.S().C("For").C("Id", "v").C("Op", "<").Then(x()).C("Block", recipe.Id("f").C("Call"))
+	},
+	"range_block": func(x func() *recipe.Node) *recipe.Node {
+		return recipe.S().C("For").C("Id", "i").C("Op", ":=").C("Range").Then(x()).C("Block")
+	},
+	"case": func(x func() *recipe.Node) *recipe.Node {
+		return recipe.S().C("Switch", recipe.Id("v")).C("Block", recipe.S().C("Case", x(), x()).C("Block", recipe.Id("w").C("Op", "=").Then(x())), recipe.S().C("Default").C("Block", recipe.S().C("Return", x())))
+	},
+	"binary": func(x func() *recipe.Node) *recipe.Node {
+		return recipe.Id("w").C("Op", "=").Then(x()).C("Op", "+").Then(x())
+	},
+	"comment": func(x func() *recipe.Node) *recipe.Node {
+		return recipe.Id("w").C("Op", "=").Then(x()).C("Comment", "c")
+	},
+	"line": func(x func() *recipe.Node) *recipe.Node {
+		return recipe.Id("w").C("Op", "=").Then(x()).C("Line").C("Id", "next")
+	},
+	"values": func(x func() *recipe.Node) *recipe.Node {
+		return recipe.S().C("Index").C("Id", "T").C("Values", x(), x())
+	},
+	"dict": func(x func() *recipe.Node) *recipe.Node {
+		return recipe.S().C("Map", recipe.Id("K")).C("Id", "V").C("Values", recipe.Dict(recipe.Pair{K: x(), V: x()}))
+	},
+	"defs": func(x func() *recipe.Node) *recipe.Node {
+		return recipe.S().C("Const").C("Defs", recipe.Id("a").C("Op", "=").Then(x()), recipe.Id("b").C("Id", "T").C("Op", "=").Then(x()))
+	},
+	"index":  func(x func() *recipe.Node) *recipe.Node { return recipe.Id("a").C("Index", x()).C("Index", x(), x()) },
+	"parens": func(x func() *recipe.Node) *recipe.Node { return recipe.S().C("Parens", x()).C("Dot", "m").C("Call") },
+	"add": func(x func() *recipe.Node) *recipe.Node {
+		return recipe.Id("w").C("Op", "=").Add(x()).C("Op", "-").Add(x())
+	},
+	"go_defer": func(x func() *recipe.Node) *recipe.Node {
+		return recipe.S().C("Defer").C("Id", "f").C("Call", x()).C("Line").C("Go").C("Id", "g").C("Call", x())
+	},
+	"params": func(x func() *recipe.Node) *recipe.Node {
+		return recipe.S().C("Func").C("Params").C("Index", x()).C("Id", "T").C("Block", recipe.S().C("Return", recipe.S().C("Index", x()).C("Id", "T").C("Values")))
+	},
+}
+
+func contextNames() []string {
+	var out []string
+	for k := range contexts {
+		out = append(out, k)
+	}
+	sort.Strings(out)
+	return out
 }
 
 // ---- several literals rendered with ONE File ----
@@ -511,7 +584,7 @@ func TestC11(t *testing.T) {
 		return c
 	})
 	hx.Rapid(r, t, hx.Check[Case]{Name: "literal_random", Fn: check}, r.N(15000, 250000), func(rt *rapid.T) Case {
-		c := Case{Val: genValue(rt), Func: rapid.IntRange(0, 3).Draw(rt, "func") == 0, Ctx: rapid.SampledFrom([]string{"", "", "assign", "call"}).Draw(rt, "ctx")}
+		c := Case{Val: genValue(rt), Func: rapid.IntRange(0, 3).Draw(rt, "func") == 0, Ctx: rapid.SampledFrom(append([]string{"", "", "assign", "call"}, contextNames()...)).Draw(rt, "ctx")}
 		note(r, c)
 		return c
 	})
